@@ -46,9 +46,9 @@ func C16(p *core.Program, r *core.Report) {
 		byHost := len(m2) == 1 && !strings.HasPrefix(m2[0], "strings.HasPrefix(")
 		// http(s) only: the prefix test alone admits whatever scheme the page URL has (ftp://,
 		// file://); the page-number finder tests the scheme of every link, so must this one
-		cutScheme, m3 := core.CutAtoms(p, fo, regexp.MustCompile(`^url\.(ParseRequestURI|Parse)\(`+regexp.QuoteMeta(href)+`\)#0\.Scheme == "https?"$`), true)
+		cutScheme, m3 := core.CutAtoms(p, fo, regexp.MustCompile(`^(url\.(ParseRequestURI|Parse)\(`+regexp.QuoteMeta(href)+`\)#0\.Scheme == "https?"|in\((set|map)‹"http"(:[^,›]*)?,"https"(:[^,›]*)?›,url\.(ParseRequestURI|Parse)\(`+regexp.QuoteMeta(href)+`\)#0\.Scheme\))$`), true)
 		for _, ap := range appends {
-			r.Add("Q1", "candidate links have the scheme http or https", p.Pos(ap.Pos()), len(m3) == 2 && !core.InstrReachable(fo, cutScheme, ap), fmt.Sprintf("matching tests: %v", m3))
+			r.Add("Q1", "candidate links have the scheme http or https", p.Pos(ap.Pos()), len(m3) >= 1 && !core.InstrReachable(fo, cutScheme, ap), fmt.Sprintf("matching tests: %v", m3))
 		}
 		for _, ap := range appends {
 			r.Add("Q1", "candidate links parse as absolute request URIs", p.Pos(ap.Pos()), len(m1) == 1 && !core.InstrReachable(fo, cutParse, ap), fmt.Sprintf("matching tests: %v", m1))
@@ -167,7 +167,7 @@ func C16(p *core.Program, r *core.Report) {
 			}
 			ok := strings.HasPrefix(v, "url.URL.String(") && strings.Contains(v, "url.Parse("+href+")#0") &&
 				lit[pr+`#1 == nil`] == 1 && (lit[U+`.Host == `+pr+`#0.Host`] == 1 || lit[pr+`#0.Host == `+U+`.Host`] == 1) &&
-				(lit[pr+`#0.Scheme == "http"`] == 1 || lit[pr+`#0.Scheme == "https"`] == 1)
+				(lit[pr+`#0.Scheme == "http"`] == 1 || lit[pr+`#0.Scheme == "https"`] == 1 || lit[`in(set‹"http","https"›,`+pr+`#0.Scheme)`] == 1)
 			if !ok {
 				bad++
 				wit = append(wit, pa.String())
@@ -176,7 +176,7 @@ func C16(p *core.Program, r *core.Report) {
 		if len(wit) > 2 {
 			wit = wit[:2]
 		}
-		r.Add("Q2", "numbered links are collected only with a parsed, same-host, http(s) target", p.Pos(gp.Pos()), nURL >= 2 && bad == 0, fmt.Sprintf("%d paths record a link URL, %d without the full validation", nURL, bad), wit...)
+		r.Add("Q2", "numbered links are collected only with a parsed, same-host, http(s) target", p.Pos(gp.Pos()), nURL >= 1 && bad == 0, fmt.Sprintf("%d paths record a link URL, %d without the full validation", nURL, bad), wit...)
 	}
 	// all PageInfo.URL sources in the module, per analysis unit (exported function with its
 	// unexported helpers expanded, so that a site is named and judged in the context of its
